@@ -1,5 +1,7 @@
 //! Utilities for iteration operators
 
+#[cfg(feature = "verif")]
+use crate::verif::std_shim as std;
 use std::cell::UnsafeCell;
 use std::fmt::{Debug, Formatter};
 use std::sync::{Arc, Condvar, Mutex};
@@ -63,6 +65,8 @@ impl<State> IterationStateRef<State> {
     /// before calling this method. All the references obtained with `get` should be dropped before
     /// calling this method, and no 2 thread can call this simultaneously.
     unsafe fn set(&self, new_state: State) {
+        #[cfg(feature = "verif")]
+        crate::verif::observe::state_access(Arc::as_ptr(&self.state) as usize, true);
         let state_ptr = &mut *self.state.get();
         *state_ptr = new_state;
     }
@@ -75,6 +79,8 @@ impl<State> IterationStateRef<State> {
     /// place before calling this method. The reference returned by this method should not be used
     /// while calling `set`.
     unsafe fn get(&self) -> &State {
+        #[cfg(feature = "verif")]
+        crate::verif::observe::state_access(Arc::as_ptr(&self.state) as usize, false);
         &*self.state.get()
     }
 }
